@@ -12,8 +12,6 @@ DEFAULT_SEEDS = {"M": b"M", "N": b"N", "S": b"symmetric"}
 
 TOY_CURVES = [(101, 12, 11), (109, 11, 13), (149, 3, 17), (157, 24, 19)]
 
-_lib_groups = {}
-_lib_params = {}
 _model_groups = {}
 _model_params = {}
 
@@ -105,8 +103,9 @@ def _toy_lib_group(lib, gspec):
         raise ToyUnavailable("%s: %s" % (type(e).__name__, e))
 
 
-def lib_group(gspec):
-    lib = loader.load()
+def lib_group(gspec, lib=None):
+    lib = lib or loader.load()
+    _lib_groups = lib._cache_groups
     k = _key(gspec)
     if k not in _lib_groups:
         kind = gspec["kind"]
@@ -124,8 +123,9 @@ def lib_group(gspec):
     return _lib_groups[k]
 
 
-def lib_params(pspec):
-    lib = loader.load()
+def lib_params(pspec, lib=None):
+    lib = lib or loader.load()
+    _lib_params = lib._cache_params
     k = _key(pspec)
     if k not in _lib_params:
         kind = pspec["group"]["kind"]
@@ -133,14 +133,15 @@ def lib_params(pspec):
         if kind in lib.shipped and s == DEFAULT_SEEDS:
             P = lib.shipped[kind]
         else:
-            P = lib.params._Params(lib_group(pspec["group"]), M=s["M"], N=s["N"], S=s["S"])
+            P = lib.params._Params(lib_group(pspec["group"], lib), M=s["M"], N=s["N"], S=s["S"])
         _lib_params[k] = P
     return _lib_params[k]
 
 
 def reset_caches():
-    _lib_groups.clear()
-    _lib_params.clear()
+    lib = loader.load()
+    lib._cache_groups.clear()
+    lib._cache_params.clear()
 
 
 # generation of valid small integer groups ------------------------------------------
